@@ -410,6 +410,10 @@ pub fn run(ctx: &Ctx) {
         huge.iter().map(|l| Base { ks: gen::hex32(&BigUint::from(0xabcdef02u64)), ks_rel: 0, id_len: 5, id_seed: seed0 ^ *l as u64, msg_len: *l, msg_seed: seed0.wrapping_mul(37) ^ *l as u64, r: Hex(expand_bytes(seed0 ^ 0x7778 ^ *l as u64, 32)) }).collect::<Vec<_>>()
     }, check_sign);
 
+    ctx.listed("long_identities", "identities of 122..129, 250..257, 1000, 4096, 8191, 8192, 65535, 65536, 70000 bytes with r injected: exact (h, S) and library verification (an identity is a byte string of any length)", move || {
+        [122usize, 123, 127, 128, 129, 250, 251, 255, 256, 257, 1000, 4096, 8191, 8192, 65535, 65536, 70_000].iter().enumerate().map(|(i, l)| Base { ks: gen::hex32(&BigUint::from(0xabcdef03u64)), ks_rel: ((i % 6) as u8) << 4, id_len: *l, id_seed: seed0 ^ (0x1d00 + i as u64), msg_len: 20 + i, msg_seed: seed0.wrapping_mul(41) ^ i as u64, r: Hex(expand_bytes(seed0 ^ 0x7779 ^ i as u64, 32)) }).collect::<Vec<_>>()
+    }, check_sign);
+
     let nrel = ctx.tier.pick(8u64, 60u64);
     ctx.listed("master_key_related_to_h1", "master keys crafted from the identity: ks = H1(ID||01) (the verifier's [h1]P2 + Ppub-s becomes a doubling), ks = 2*H1, ks = H1 - 1: sign with injected r, exact (h,S), verification; and the reference's signature must be accepted", move || {
         let mut v = Vec::new();
